@@ -107,6 +107,13 @@ func cmdProp(args []string) {
 			keys = append(keys, k)
 		}
 	}
+	// modularity: a caller is checked against its callees' contracts, so within one property every contract that a
+	// verified function relies on must itself be verified there. The functions tagged for the property are closed under
+	// "calls a function of oxy that has a contract" (through contract-less helpers that get inlined, and closures).
+	viaCallee := map[string]bool{}
+	if *id != "C09" {
+		keys, viaCallee = e.closeUnderCallees(keys)
+	}
 	uncontracted := map[string]bool{}
 	if *id == "C09" {
 		for _, k := range c09Roots(e) {
@@ -212,7 +219,7 @@ func cmdProp(args []string) {
 			}
 			// the synchronisation obligations of a function (guard:*, lock:*) belong to every property the function is
 			// verified for: all its other proofs assume the lock discipline
-			if len(ob.Props) == 0 || hasProp(ob.Props, *id) || ((ob.Kind == "guard" || ob.Kind == "lock" || strings.HasSuffix(ob.Kind, ":holds") || strings.HasSuffix(ob.Kind, ":deadlock")) && inC09Package(k)) {
+			if len(ob.Props) == 0 || hasProp(ob.Props, *id) || viaCallee[k] || ((ob.Kind == "guard" || ob.Kind == "lock" || strings.HasSuffix(ob.Kind, ":holds") || strings.HasSuffix(ob.Kind, ":deadlock")) && inC09Package(k)) {
 				mine = append(mine, ob)
 			}
 		}
@@ -800,4 +807,88 @@ func (e *Engine) crossCheck(obs []*Obligation, dir string, workers int) (confirm
 	wg.Wait()
 	sort.Strings(disagreements)
 	return
+}
+
+
+// closeUnderCallees adds to keys every contracted oxy function that a function in keys calls (directly, through a
+// contract-less helper, or from one of its function literals), transitively. The second result marks the additions.
+func (e *Engine) closeUnderCallees(keys []string) ([]string, map[string]bool) {
+	rev := map[*ssa.Function]string{}
+	for k, f := range e.funcs {
+		if old, ok := rev[f]; !ok || len(k) < len(old) {
+			rev[f] = k
+		}
+	}
+	in := map[string]bool{}
+	for _, k := range keys {
+		in[k] = true
+	}
+	added := map[string]bool{}
+	work := append([]string{}, keys...)
+	var callees func(fn *ssa.Function, depth int, seen map[*ssa.Function]bool, out map[string]bool)
+	callees = func(fn *ssa.Function, depth int, seen map[*ssa.Function]bool, out map[string]bool) {
+		if fn == nil || seen[fn] || depth > 4 {
+			return
+		}
+		seen[fn] = true
+		visit := func(g *ssa.Function) {
+			if g == nil {
+				return
+			}
+			k, ok := rev[g]
+			if !ok {
+				if g.Parent() != nil { // function literal: its calls are made on behalf of the enclosing function
+					callees(g, depth, seen, out)
+				}
+				return
+			}
+			if e.cs.Funcs[k] != nil {
+				out[k] = true
+				return
+			}
+			callees(g, depth+1, seen, out) // contract-less helper: inlined by the executor
+		}
+		for _, b := range fn.Blocks {
+			for _, ins := range b.Instrs {
+				if c, ok := ins.(ssa.CallInstruction); ok {
+					visit(c.Common().StaticCallee())
+				}
+				for _, op := range ins.Operands(nil) {
+					if op == nil || *op == nil {
+						continue
+					}
+					switch v := (*op).(type) {
+					case *ssa.Function:
+						visit(v)
+					case *ssa.MakeClosure:
+						if f, ok := v.Fn.(*ssa.Function); ok {
+							visit(f)
+						}
+					}
+				}
+			}
+		}
+	}
+	for len(work) > 0 {
+		k := work[0]
+		work = work[1:]
+		fn := e.funcs[k]
+		if fn == nil {
+			continue
+		}
+		if fc := e.cs.Funcs[k]; fc != nil && fc.Trusted {
+			continue // the body of a trusted contract is not looked at
+		}
+		out := map[string]bool{}
+		callees(fn, 0, map[*ssa.Function]bool{}, out)
+		for c := range out {
+			if !in[c] {
+				in[c] = true
+				added[c] = true
+				keys = append(keys, c)
+				work = append(work, c)
+			}
+		}
+	}
+	return keys, added
 }
